@@ -62,7 +62,7 @@ def plan(tier, seed):
         shards.append(("toggle", a, b))
     # value tables in unusual numerical regimes: nearly equal weights (relative gaps of a few 1e-6,
     # i.e. inside the default tolerances of "approximately equal" tests) and tiny / huge magnitudes
-    for tab in ("near", "tiny", "huge"):
+    for tab in ("near", "tiny", "huge", "tiny2"):
         for a, b in E.chunks(E.n_graphs(4, 3), 250):
             shards.append(("gt", 4, 3, tab, a, b))
         for a, b in E.chunks(E.n_graphs(5, 2), 128):
@@ -115,7 +115,8 @@ def query_points(pts):
     return sorted(qs) + [far]
 
 
-TABLES = {"near": [1.0, 1.0 + 3e-6, 1.0 + 6e-6], "tiny": [1e-9, 2e-9, 3.5e-9], "huge": [1e20, 2e20, 3.5e20]}
+TABLES = {"near": [1.0, 1.0 + 3e-6, 1.0 + 6e-6], "tiny": [1e-9, 2e-9, 3.5e-9], "huge": [1e20, 2e20, 3.5e20],
+          "tiny2": [1e-25, 2e-25, 3.5e-25]}       # below every absolute "epsilon" a comparison might add
 
 
 def programs(shard, seed):
@@ -158,6 +159,8 @@ def programs(shard, seed):
                            "batches": [[n1 - 1], [n1 - 1, n1 - 1]]}
             return
         labs = E.labelings(n1 - 1)
+        if kind == "g" and n1 == 5 and m == 3:
+            labs = E.labelings(n1 - 1, max_classes=2)       # 59 049 graphs: two-class labelings only
         for W in graphs:
             Wl = W.tolist()
             for q in range(n1):
